@@ -431,6 +431,13 @@ func TestC04HeldReaders(t *testing.T) {
 }
 
 var replayFns = map[string]vlib.ReplayFn{
+	"failintro": func(raw json.RawMessage) *vlib.Failure {
+		var c FailIntroCase
+		if f := vlib.Decode(raw, &c); f != nil {
+			return f
+		}
+		return propFailIntro(c)
+	},
 	"storm": func(raw json.RawMessage) *vlib.Failure {
 		var c StormCase
 		if f := vlib.Decode(raw, &c); f != nil {
